@@ -194,7 +194,7 @@ def run(rep, tier, seed):
         raise tlc.MachineryError("leg A: MC_GrammarPath violated on the shipped specification\n" + a["out"][-2500:])
     rng = random.Random(seed + 10)
     events, recipes = [], {}
-    make_events(rep, rng, 3000 if tier == "quick" else 100000, events, recipes)
+    make_events(rep, rng, 6000 if tier == "quick" else 100000, events, recipes)
     gd.judge(rep, events, recipes, "C10")
     for e in events[:: max(1, len(events) // 3)][:3]:
         rep.sample({"src": recipes[e["id"]], "outcome": e["outcome"]})
